@@ -943,7 +943,7 @@ def gen_twoport(rng, case):
 def run_twoport(chk, drv, L, state):
     rng = chk.rng
     quick = chk.tier == 'quick'
-    n_cases = 32 if quick else 160
+    n_cases = 20 if quick else 160
     tlimit = 20 if quick else 45
     disagreements = state['disagreements']
 
@@ -1406,7 +1406,8 @@ def _f(v):
 def run(chk, replay=None):
     from translate import tx_sections, tx_twoport
     tinfo = {}
-    props = ['Lcapy/Props/C07.lean', 'Lcapy/Props/C07TwoPort.lean', 'Lcapy/Props/C07Simplify.lean', 'Lcapy/Props/C07Netlist.lean']
+    props = ['Lcapy/Props/C07.lean', 'Lcapy/Props/C07TwoPort.lean', 'Lcapy/Props/C07Simplify.lean', 'Lcapy/Props/C07Netlist.lean',
+             'Lcapy/Props/NonVacuityC07.lean']
     helpers = ['Lcapy/Proofs/OnePort.lean', 'Lcapy/Proofs/OnePortLine.lean', 'Lcapy/Proofs/OnePortSimplify.lean',
                'Lcapy/Proofs/OnePortScan.lean', 'Lcapy/Proofs/OnePortNetlist.lean',
                'Lcapy/Spec/OnePort.lean', 'Lcapy/Spec/OnePortExec.lean', 'Lcapy/Spec/Sections.lean',
